@@ -78,7 +78,7 @@ def run(tier, replay=None):
         # then sit next to the random row, where the auxiliary columns must still close)
         progs += vmtrace.cycle_boundary_programs(wd, targets=(62, 63, 64, 126, 127, 128, 254, 255, 256) if thorough else (63, 64, 127))
         progs += vmtrace.chiplet_boundary_programs(thorough)
-        progs += vmtrace.callee_shape_programs() + vmtrace.fri_programs()
+        progs += vmtrace.callee_shape_programs() + vmtrace.fri_programs() + vmtrace.range_gap_programs(thorough)
     # T1 : bags
     rec = vmtrace.record(progs, wd, "release")
     rows, states, rejects, runs = vmtrace.validate(rec, wd, "c12")
